@@ -18,6 +18,7 @@ import copy
 import multiprocessing as mp
 import os
 import re
+import time
 from fractions import Fraction
 
 from translate import c12 as T
@@ -28,6 +29,12 @@ from vlib.framework import REPO
 PROPS = ["MxlVerif.Props.C12"]
 TOL = 1e-12
 TRAJ_TOL = 2e-5
+RHS_BUDGET = 20000  # right-hand-side evaluations per simulation (models that blow up in finite time are skipped)
+
+
+class Budget(Exception):
+    pass
+
 _LIB = None
 
 
@@ -287,6 +294,16 @@ def traj_worker(case):
                 m = build_model(content)
                 sim = Simulator(m, use_jacobian=uj, integrator=partial(Scipy, method=meth))
                 calls = [0]
+                budget = [0]
+                rhs = sim.integrator.rhs
+
+                def counted(t, y, rhs=rhs, budget=budget):
+                    budget[0] += 1
+                    if budget[0] > RHS_BUDGET:
+                        raise Budget
+                    return rhs(t, y)
+
+                sim.integrator.rhs = counted
                 jf = sim.integrator.jacobian
                 if jf is not None:
                     def wrapped(t, x, jf=jf, calls=calls):
@@ -598,6 +615,9 @@ def judge_traj(ctx, case, T_):
     used = 0
     for meth, row in T_.items():
         a, b = row[False], row[True]
+        if any("err" in r and r["err"][0] == "Budget" for r in (a, b)):
+            ctx.hist["traj_skipped_budget"] = ctx.hist.get("traj_skipped_budget", 0) + 1
+            continue
         if "ok" not in a:
             ctx.hist["traj_skipped_" + a["err"][0]] = ctx.hist.get("traj_skipped_" + a["err"][0], 0) + 1
             continue
@@ -641,6 +661,8 @@ def run(ctx):
     rng = ctx.rng
     cases = corpus()
     n = ctx.n(260, 2000)
+    if not ctx.proof_ok and ctx.tier == "quick":
+        n = 1000  # a proof / translator obligation is broken: widen the failing-input search
     gen = []
     for i in range(n):
         c = gen_content(rng, rational=(i % 3 == 2))
@@ -666,6 +688,7 @@ def run(ctx):
             if should_convert(c) == "ok":
                 tcases.append({"content": c, "points": [], "t_end": 1 if i % 3 == 0 else 2})
     used = 0
+    ctx.extra_cov["wall_s_before_trajectories"] = round(time.time() - ctx.t0, 1)
     for case, T_ in zip(tcases, pool().map(traj_worker, tcases, chunksize=1)):
         used += judge_traj(ctx, case, T_)
     ctx.extra_cov["trajectory_runs_in_which_the_Jacobian_was_called"] = used
